@@ -57,11 +57,10 @@ PARAMS = {
     #   rnd:        seeded long random histories (6 sessions, 5 blocks, 3 forks, versions -1..3)
     "quick":    dict(mc_sessions=3, all_tables=1, one_fork=2, sample_sessions=3, sample=16000,
                      rnd=2000, mc_workers=8,
-                     mc_inv="TypeOK PropertyInv CodeDiffClasses DevModelFaithful"),
-    "thorough": dict(mc_sessions=4, all_tables=2, one_fork=3, sample_sessions=4, sample=100000,
-                     rnd=20000, mc_workers=16,
-                     mc_inv="TypeOK PropertyInv CodeDiffClasses DevModelFaithful FixFaithful "
-                            "FixDiffClasses"),
+                     mc_inv="TypeOK AllInv"),
+    "thorough": dict(mc_sessions=4, all_tables=2, one_fork=3, sample_sessions=4, sample=60000,
+                     rnd=10000, mc_workers=16,
+                     mc_inv="TypeOK AllInv"),
 }
 
 
@@ -98,6 +97,12 @@ def run_mc(p, result):
         r = tlc("MC_VersionLock", cfg="c19_mc.cfg", files=[("c19_mc.cfg", cfg)],
                      workers=p["mc_workers"], timeout=3000, heap="12g")
         result["mc"] = r
+        # the same invariants in their operator form (AllInv works on verdict vectors), and the
+        # agreement of both forms, on the 2-session model
+        cfg = mc_cfg(2, "TypeOK PropertyInv CodeDiffClasses DevModelFaithful FixFaithful "
+                        "FixDiffClasses VectorsOK")
+        result["tie"] = tlc("MC_VersionLock", cfg="c19_tie.cfg", files=[("c19_tie.cfg", cfg)],
+                            workers=4, timeout=900, heap="4g")
         # the deviation switched on must be visible to TLC (sanity of the spec itself)
         cfg = mc_cfg(3, "TypeOK PropertyInv", dev=True)
         result["dev"] = tlc("MC_VersionLock", cfg="c19_dev.cfg", files=[("c19_dev.cfg", cfg)],
@@ -329,10 +334,12 @@ def body(t0, tier, p, rng, work):
         th.join()
     if "exc" in mcres:
         raise mcres["exc"]
-    mc, dev = mcres["mc"], mcres["dev"]
-    if not mc.ok:
-        # an invariant of the specification itself failed: a defect of the check, not a verdict
-        raise vlib.Infra("MC_VersionLock: %s %s\n%s" % (mc.violation, mc.error, mc.out[-3000:]))
+    mc, dev, tie = mcres["mc"], mcres["dev"], mcres["tie"]
+    for r in (mc, tie):
+        if not r.ok:
+            # an invariant of the specification itself failed: a defect of the check, not a verdict
+            named = [l for l in r.out.splitlines() if l.startswith('<<"C19INV"')][:1]
+            raise vlib.Infra("MC_VersionLock: %s %s %s\n%s" % (r.violation, named, r.error, r.out[-3000:]))
     if dev.violation != "PropertyInv":
         raise vlib.Infra("MC_VersionLock with %s=TRUE did not produce the counterexample: %s %s"
                          % (DEVIATION, dev.violation, dev.error))
@@ -403,15 +410,17 @@ def body(t0, tier, p, rng, work):
         for st in s["obs"]["sess"] + s["obs"]["final"]:
             st.pop("text", None)
     cov = {
-        "states": mc.distinct,
-        "transitions": mc.generated,
+        "states": mc.distinct + tie.distinct,
+        "transitions": mc.generated + tie.generated,
         "traces_validated_against_impl": len(obs),
         "samples": samples,
         "exhaustive": True,
         "mc_bound": "<=%d sessions x <=3 blocks, versions -1..2, 1-2 forks at heights 0..7 "
                     "(min version 0..2) plus the {0,-1} entry; every starting build 0..2"
                     % p["mc_sessions"],
-        "mc_invariants": p["mc_inv"].split(),
+        "mc_invariants": ["TypeOK", "AllInv = PropertyInv /\\ CodeDiffClasses /\\ DevModelFaithful /\\ "
+                          "FixFaithful /\\ FixDiffClasses", "VectorsOK (2-session model)"],
+        "mc_states_main": mc.distinct,
         "mc_wall_s": round(mc.wall, 1),
         "mc_dev_counterexample": dev.violation,
         "export_states": rexp.distinct,
